@@ -147,7 +147,10 @@ class MultiMatcher(mcore.Matcher):
         self._next_matcher()
 
     def children(self):
-        return [self.matchers[self.current]]
+        # Once exhausted there is no current sub-matcher
+        if self.current < len(self.matchers):
+            return [self.matchers[self.current]]
+        return []
 
     def _next_matcher(self):
         matchers = self.matchers
